@@ -7,7 +7,6 @@ wt=$(mktemp -d /tmp/mvmut-XXXXXX); rmdir "$wt"
 git -C /repo worktree add -q --detach "$wt" HEAD || exit 2
 cd "$wt" && git apply "$patch" || { echo "PATCH DOES NOT APPLY"; git -C /repo worktree remove --force "$wt"; exit 2; }
 cd /verif
-ev=$(mktemp -d /tmp/mvev-XXXXXX); cp -r evidence/. "$ev"/
 tier=${MUT_TIER:-quick}
 for c in "$@"; do
   out=$(MV_REPO="$wt" timeout 1800 ./check "$c" $tier 2>&1)
@@ -15,5 +14,4 @@ for c in "$@"; do
   echo "== $c rc=$rc $(echo "$out" | grep -E "^$c $tier" | cut -c1-120)"
   echo "$out" | grep -E "^VIOLATION|^INCONCLUSIVE" | sed 's/replay=[^ ]*//' | cut -c1-160 | sort | uniq -c | sort -rn | head -${MUT_LINES:-4}
 done
-rm -rf evidence; mkdir evidence; cp -r "$ev"/. evidence/; rm -rf "$ev"
 git -C /repo worktree remove --force "$wt"
